@@ -239,17 +239,21 @@ PROPS = {
                 "later agreed with name/icon/options/auto-reply), set-client-user-info (name incl. 505/600-byte names, 2- or 4-byte icon, options "
                 "present or absent), administrator set-user toggling the disconnect privilege (admin flag), disconnect, kick, private message "
                 "to a live or unused id, get-client-info and invitation addressed to an id, and fast-forward of the production client registry "
-                "by {1,100,30000,65000,65530,65536,70000} add/delete cycles; TestC13Wrap keeps two users connected, moves the counter to 10 before "
+                "by {1,100,30000,65000,65530,65536,70000} add/delete cycles, and idling for {50 s, 295 s, 311 s, 10 min} of fake time with the production "
+                "keep-alive loop running (users become away after 300 s; a keep-alive request must not wake them, any other request must); TestC13Wrap keeps two users connected, moves the counter to 10 before "
                 "the 16-bit wrap and continues; every client folds the 301/302 notifications it receives into the user list it fetched; after "
                 "every step: registry size == live connections, ids distinct, each folded roster == fresh user list restricted to completed "
                 "logins (id, name, icon, flags as integers), id-addressed requests reach exactly the holder, refuse-messages and auto-reply "
                 "honoured; non-trivial = a change or departure after another client fetched its list; distinct = hash(history)",
         "assumptions": ["each step settles before the next (the statement quantifies over histories; delivery order of two notifications to one client is not constrained)",
-                        "users logged in but not yet agreed are unconstrained in other clients' rosters"],
+                        "users logged in but not yet agreed are unconstrained in other clients' rosters",
+                        "known finding away-clear-reorder: an away user's first request is a non-notifying one in TestC13 (excluded, counted); the excluded class is decided by TestC13AwayReorder"],
         "quick": {"runs": [{"test": "^TestC13$", "shards": 12, "checks": 60, "timeout": 900},
-                           {"test": "^TestC13Wrap$", "shards": 4, "checks": 25, "timeout": 900}]},
-        "thorough": {"runs": [{"test": "^TestC13$", "shards": 12, "checks": 2000, "timeout": 3400},
-                              {"test": "^TestC13Wrap$", "shards": 4, "checks": 500, "timeout": 3400}]},
+                           {"test": "^TestC13Wrap$", "shards": 3, "checks": 25, "timeout": 900},
+                           {"test": "^TestC13AwayReorder$", "shards": 1, "checks": 40, "timeout": 900}]},
+        "thorough": {"runs": [{"test": "^TestC13$", "shards": 11, "checks": 2000, "timeout": 3400},
+                              {"test": "^TestC13Wrap$", "shards": 3, "checks": 500, "timeout": 3400},
+                              {"test": "^TestC13AwayReorder$", "shards": 2, "checks": 1500, "timeout": 3400}]},
     },
     "C17": {
         "title": "Disconnects and bans are enforced at the door",
@@ -372,7 +376,7 @@ PROPS = {
         "assumptions": ["the hostile account lacks disconnect-user / delete-user / modify-user: an authorised administrator removing other users is not a containment failure",
                         "declared fork sizes <= 1 MiB (the property's bound)", "goroutine schedules are sampled"],
         "quick": {"runs": [{"test": "^TestC03$", "shards": 15, "checks": 100, "timeout": 900},
-                           {"test": "^TestC03Net$", "shards": 1, "timeout": 600}]},
+                           {"test": "^TestC03Net$", "shards": 1, "timeout": 900}]},
         "thorough": {"runs": [{"test": "^TestC03$", "shards": 16, "checks": 3000, "timeout": 3400, "group": 0},
                               {"fuzz": "^FuzzC03$", "test": "FuzzC03", "fuzztime": "240s", "timeout": 900, "group": 1, "weight": 16},
                               {"test": "^TestC03Net$", "shards": 2, "timeout": 900, "group": 2, "weight": 8},
